@@ -344,7 +344,7 @@ func c08Parsers() []c08Parser {
 				"::", "1.2.3.4", "%25eth0"}},
 		// bracketed (IP-literal) hosts: every string over the alphabet inside "[...]", with and
 		// without a port, as Host of URI.Parse, inside an absolute URI and as Host header of a request
-		{name: "URI.Parse/bracket-host", nQuick: 4, nThor: 6,
+		{name: "URI.Parse/bracket-host", nQuick: 4, nThor: 5,
 			pure: func(in []byte) {
 				for _, host := range []string{"[" + string(in) + "]", "[" + string(in) + "]:8080", "[" + string(in)} {
 					var u URI
@@ -384,7 +384,7 @@ func c08Parsers() []c08Parser {
 			toks: []string{"a", "=", ";", " ", "\"", "\\", ",", "\t", "*", "'"}},
 		// Content-Type parameters of a multipart request: every token string after
 		// "multipart/form-data", through every path that looks for the boundary
-		{name: "multipart-boundary-parameter", nQuick: 5, nThor: 7,
+		{name: "multipart-boundary-parameter", nQuick: 5, nThor: 6,
 			pure: func(in []byte) {
 				ct := "multipart/form-data" + string(in)
 				var h RequestHeader
@@ -641,7 +641,7 @@ func TestVerifC08Parsers(t *testing.T) {
 		// seeded longer samples
 		samples := 4000
 		if !quick {
-			samples = 60000
+			samples = 30000
 		}
 		for s := 0; s < samples; s++ {
 			l := n + 1 + rng.Intn(4)
@@ -687,7 +687,7 @@ func TestVerifC08Parsers(t *testing.T) {
 			}
 			second := 2000
 			if !quick {
-				second = 40000
+				second = 15000
 			}
 			for i := 0; i < second; i++ {
 				m := append([]int{}, muts[rng.Intn(len(muts))]...)
